@@ -412,20 +412,27 @@ class TrajectoryConstraintsRemover(engines.engine.Engine, CompilerMixin):
         return env.expression_manager.Or(gamma1, conjunction)
 
     def _gamma(self, env, literal, action):
+        em = env.expression_manager
         disjunction = []
         for eff in action.effects:
-            cond = eff.condition
-            if eff.value.is_false():
-                eff = env.expression_manager.Not(eff.fluent)
+            # the condition under which this effect makes the literal true: the value
+            # of a Boolean assignment can be any expression, not only a constant
+            if not eff.fluent.type.is_bool_type():
+                continue
+            if literal == eff.fluent:
+                makes_true = eff.value
+            elif literal == em.Not(eff.fluent):
+                makes_true = em.Not(eff.value)
             else:
-                eff = eff.fluent
-            if literal == eff:
-                if cond.is_true():
-                    return env.expression_manager.TRUE()
+                continue
+            cond = em.And(eff.condition, makes_true).simplify()
+            if cond.is_true():
+                return em.TRUE()
+            if not cond.is_false():
                 disjunction.append(cond)
         if not disjunction:
-            return env.expression_manager.FALSE()
-        return env.expression_manager.Or(disjunction)
+            return em.FALSE()
+        return em.Or(disjunction)
 
     def _regression(self, env, phi, action):
         if phi.is_false() or phi.is_true():
